@@ -7,7 +7,9 @@ Monitors (one execution = Trajectory.save(path, **options) of a generated trajec
  independent.*  the written bytes are read again by vlib/oracle/c01_parsers.py (struct / text columns / netCDF4 / tables written
                 from the format specifications, no mdtraj) and must hold input x exact unit factor in the file's native unit and
                 layout; a file the specification-reader cannot take apart is a layout violation.
- restart.*      n-frame rst7/ncrst: file path.k must carry frame k's coordinates, time k and cell k.
+ restart.*      n-frame rst7/ncrst: file path.k must carry frame k's coordinates, time k and cell k (restart.bytes.* = the same
+                through the independent reader).
+ fileobj.xyz    md.open(path).read() returns the coordinates in the unit the file class documents (native unit), same quantum.
  format.<ext>   one event per case of that extension whose round trip was judged (floors => a format that refused every case
                 makes the run inconclusive; per-format refusal counts are in coverage.formats).
 
@@ -18,7 +20,9 @@ Tolerances (derived from the documented field formats, never from the observed b
       pdb / mdcrd '%8.3f' A, xyz / lammpstrj '{:8.3f}' A: q = 1e-4, k = 6      rst7 '%12.7f' A: q = 1e-8, k = 6
       gro precision p: q = 10^-p, k = 2.   pdb beyond the 8.3 field (documented '_format_83' lops decimals off): q = one unit
       of the last digit kept, not halved (truncation).
- coordinates, independent reader, native unit v = u*x:  q_native/2 + 2*EPS*|v| (u = 10) or exactly q_native/2 (u = 1).
+ coordinates, independent reader, native unit v = u*x:  binary: 2*EPS*|v| (u = 10) or exact (u = 1); text: q_native/2 measured
+      against the nearer of x*10 evaluated in float32 and in float64 (the number handed to the formatter), no float slack
+      (+4e-16*|v| for the float64 image of the decimal); pdb keeps q/2 + 2*EPS*|v| because of its degraded-precision branch.
  times: float32/float64 fields exact; rst7 '%15.7e' half a unit of the 8th significant digit; gro 't= %s' exact (repr).
  cell lengths as coordinates (gro box '%10.5f' nm, pdb CRYST1 '%9.3f' A, mdcrd '%8.3f' A, rst7 '%12.7f' A); formats that store
  box vectors (xtc, trr, gro, dtr) get 64*EPS*|L| for the float32 length/angle <-> vector conversions; cell angles: 64*EPS rad
@@ -44,7 +48,7 @@ from vlib.oracle import c01_parsers as P
 PROPERTY = "C01"
 LEVEL = "exploration"
 NATIVE = ["mdtraj.formats.xtc", "mdtraj.formats.trr", "mdtraj.formats.dcd", "mdtraj.formats.dtr"]
-RULE = ("case = (extension incl. aliases and .gz, n_frames 1..40, n_atoms in {1,2,3,8,9,10,11,12,33,100,1000}, coordinate "
+RULE = ("thorough: exhaustive grid extension x n_atoms x magnitude x sign x cell kind (2 frames) plus the seeded stream; case = (extension incl. aliases and .gz, n_frames 1..40, n_atoms in {1,2,3,8,9,10,11,12,33,100,1000}, coordinate "
         "magnitude 1e-3 .. 3e6 nm (just inside / outside every fixed-width limit), sign pattern, time series kind, cell kind "
         "none/cubic/ortho/triclinic/per-frame, gro precision 1..6, pdb ter/header/bfactors, topology kind) from a seeded stream; "
         "non-trivial = the file was written and at least one monitor compared it with the input; distinct = distinct descriptors")
@@ -80,11 +84,15 @@ ATOMS = [1, 2, 3, 8, 9, 10, 11, 12, 33, 100, 1000]
 MAGS = [1e-3, 0.1, 3.0, 3.0, 3.0, 50.0, 50.0, 99.9, 100.1, 999.9, 1000.1, 9999.9, 10000.1, 2e4, 1e5, 3e6]
 TIME_KINDS = ["default", "nonuniform", "nonuniform", "large", "large-fine", "negative", "exp"]
 CELL_KINDS = ["none", "cubic", "ortho", "tric", "tric", "pf-ortho", "pf-tric"]
-NCASES = {"quick": 3600, "thorough": 60000}
-FLOORS = {"quick": dict({"roundtrip.shape": 500, "roundtrip.xyz": 500, "roundtrip.time": 150, "roundtrip.cell": 200,
-                         "independent.xyz": 400, "independent.time": 100, "independent.cell": 150, "independent.layout": 450,
-                         "restart.time": 60, "restart.xyz": 60},
-                        **{f"format.{e}": (8 if e in ("netcdf", "ncdf", "crd") else 20) for e in FMT})}
+NCASES = {"quick": 3600, "thorough": 50000}
+FLOORS = {"quick": dict({"roundtrip.shape": 600, "roundtrip.xyz": 4500, "roundtrip.time": 2500, "roundtrip.cell": 4000,
+                         "independent.layout": 600, "independent.shape": 550, "independent.xyz": 4500, "independent.time": 2500,
+                         "independent.cell": 3500, "independent.xtc-header": 200, "independent.step": 120, "independent.dcd-header": 60,
+                         "independent.pdb-bfactors": 50, "independent.pdb-ter": 50, "independent.mdcrd-box-columns": 30,
+                         "restart.files": 50, "restart.xyz": 150, "restart.time": 150, "restart.cell": 150, "restart.bytes.xyz": 150,
+                         "restart.bytes.time": 150, "fileobj.xyz": 4000},
+                        **{f"format.{e}": 20 for e in FMT})}
+FLOORS["thorough"] = {k: 4 * v for k, v in FLOORS["quick"].items()}
 ASSUMPTIONS = [
     "PDB holds one CRYST1 record: with a per-frame varying cell only frame 0's cell is compared (later frames: skip)",
     "mdcrd with one atom and no box cannot be told from a boxed file (documented limitation of the format / has_box='detect'): "
@@ -128,19 +136,50 @@ def evidence_extra(records, dones, tier):
 
 
 # ---------------------------------------------------------------------------------------------------- generation
+def _asan_twin(c, i):
+    if FMT[c["ext"]]["canon"] in ("xtc", "trr", "dcd", "dtr") and (i % 9 == 0 or (c["na"] in (8, 9, 10, 1000) and i % 3 == 0)):
+        d = dict(c)
+        d["group"] = "asan"
+        return d
+    return None
+
+
 def gen_cases(tier, seed):
+    i = 0
+    if tier == "thorough":
+        # exhaustive small scope: every extension x atom count x magnitude x sign x cell kind, two frames
+        mags = sorted(set(MAGS))
+        for ext in FMT:
+            canon = FMT[ext]["canon"]
+            for na in ATOMS:
+                for mag in mags:
+                    for sign in ("mixed", "+", "-"):
+                        for cell in ("none", "ortho", "tric", "pf-tric"):
+                            c = dict(i=i, seed=common.case_seed(seed, "C01grid", i), ext=ext, nf=2, na=na, mag=float(mag),
+                                     dist=("spread", "shell")[i % 2], sign=sign, time=("nonuniform", "large", "default")[i % 3], cell=cell,
+                                     cellscale=(1.0, 20.0)[(i // 2) % 2], top=("ident", "random")[(i // 4) % 2])
+                            if canon == "gro":
+                                c["prec"] = 1 + i % 6
+                            if canon == "pdb":
+                                c.update(ter=bool(i % 2), header=bool((i // 2) % 2), bf=("none", "1d", "2d")[i % 3])
+                            yield c
+                            if i % 7 == 0:
+                                d = _asan_twin(c, 0)
+                                if d:
+                                    yield d
+                            i += 1
     n = NCASES[tier]
     big = 4000 if tier == "quick" else 40000
-    for i in range(n):
-        rng = common.rng_for("C01", seed, i)
-        ext = EXT_STREAM[i % len(EXT_STREAM)]
+    for j in range(n):
+        rng = common.rng_for("C01", seed, j)
+        ext = EXT_STREAM[j % len(EXT_STREAM)]
         na = int(ATOMS[int(rng.integers(len(ATOMS)))])
         nf = int(rng.choice([1, 1, 2, 3, 5, 8, 13, 40, int(rng.integers(1, 41))]))
         if FMT[ext]["canon"] in ("rst7", "ncrst"):
-            nf = min(nf, int(rng.choice([1, 2, 3, 5, 11])))
+            nf = min(nf, int(rng.choice([1, 2, 3, 5, 11] if tier == "quick" else [1, 2, 3, 5, 11, 40])))
         while nf * na > big and nf > 1:
             nf = max(1, nf // 2)
-        c = dict(i=i, seed=common.case_seed(seed, "C01", i), ext=ext, nf=nf, na=na,
+        c = dict(i=i + j, seed=common.case_seed(seed, "C01", j), ext=ext, nf=nf, na=na,
                  mag=float(MAGS[int(rng.integers(len(MAGS)))]), dist=str(rng.choice(["spread", "spread", "shell"])),
                  sign=str(rng.choice(["mixed", "mixed", "+", "-"])), time=str(TIME_KINDS[int(rng.integers(len(TIME_KINDS)))]),
                  cell=str(CELL_KINDS[int(rng.integers(len(CELL_KINDS)))]), cellscale=float(rng.choice([1.0, 1.0, 20.0])),
@@ -150,9 +189,8 @@ def gen_cases(tier, seed):
         if FMT[ext]["canon"] == "pdb":
             c.update(ter=bool(rng.random() < 0.6), header=bool(rng.random() < 0.7), bf=str(rng.choice(["none", "none", "1d", "2d"])))
         yield c
-        if FMT[ext]["canon"] in ("xtc", "trr", "dcd", "dtr") and (i % 9 == 0 or (na in (8, 9, 10, 1000) and i % 3 == 0)):
-            d = dict(c)
-            d["group"] = "asan"
+        d = _asan_twin(c, j)
+        if d:
             yield d
 
 
@@ -618,6 +656,39 @@ def _independent_cell(ctx, case, T, R, key, fsel, mon):
             ctx.ok(mon + ".mdcrd-box-columns", nf)
 
 
+def _fileobj(ctx, case, T, path, key):
+    """md.open(path).read(): coordinates in the unit the file class documents (distance_unit), same quantum as the round trip"""
+    import mdtraj as md
+    info = FMT[case["ext"]]
+    canon = info["canon"]
+    fcanon = {"nc": "nc", "mdcrd": "mdcrd"}.get(canon, canon if case["ext"] in files.FORMATS else None)
+    if fcanon is None or fcanon not in files.SEEKABLE and fcanon != "xyz":
+        return
+    if canon == "mdcrd" and T.n_atoms == 1 and T.unitcell_lengths is None:
+        ctx.skip("fileobj", "mdcrd with one atom and no box: frame lines and box lines are indistinguishable (documented limitation)")
+        return
+    try:
+        with md.open(path, **files.open_kwargs(fcanon, T.n_atoms)) as f:
+            res = f.read()
+    except Exception as e:
+        ctx.skip("fileobj", f"{case['ext']}: md.open(...).read() raised {_reason(e)}")
+        return
+    xyz = np.asarray(files.coords_of(fcanon, res), np.float64)
+    if xyz.shape != T.xyz.shape:
+        ctx.violation("fileobj.xyz", key("shape", "fileobj-read-shape-differs"), f"{case['ext']}: md.open().read() gave shape {xyz.shape}, saved {T.xyz.shape}")
+        return
+    u = info["u"]
+    v0 = T.xyz.astype(np.float64) * u
+    tol = _xyz_tol_nm(case, T) * u + 2 * EPS * np.abs(v0) * (u != 1.0)
+    diff = np.abs(xyz - v0)
+    j = _worst(diff, tol)
+    if j is None:
+        ctx.ok("fileobj.xyz", T.n_frames)
+    else:
+        ctx.violation("fileobj.xyz", key("xyz", "fileobj-read-not-in-documented-unit-or-beyond-quantum"),
+                      f"{case['ext']}: md.open().read() value [{j}] = {xyz[j]!r}, input x {u:g} = {v0[j]!r} (tol {tol[j]:.3g})")
+
+
 # ---------------------------------------------------------------------------------------------------- case
 def _reason(e):
     s = str(e)
@@ -702,6 +773,8 @@ def run_case(case, ctx):
                 _stat(ext, "judged")
         # (c) independent reading of the bytes
         _independent(ctx, case, T, path, key)
+        # (d) the documented low-level file object returns the format's native unit
+        _fileobj(ctx, case, T, path, key)
         if not judged and canon != "dtr":
             _stat(ext, "judged by the independent reader only")
     finally:
